@@ -642,8 +642,11 @@ def limits_profile(rng, n):
             if rng.random() < 0.25:
                 lim.append((rng.choice(["d", "w"]), 3600 * rng.choice([2, 4, 10]), None))
             deps = [(rng.choice(ts), False, 0)] if ts and rng.random() < 0.4 else []
+            team = [r]
+            if len(rs) > 1 and rng.random() < 0.3:
+                team = rng.sample(rs, rng.randint(2, len(rs)))
             ts.append(p.add_task("t%d" % k, parent=cont if (cont and rng.random() < 0.7) else None, effort=effort,
-                                 alloc=[r], deps=deps, limits=lim, prio=rng.choice([None, 300, 700])))
+                                 alloc=team, deps=deps, limits=lim, prio=rng.choice([None, 300, 700])))
         out.append(("lim%04d" % i, p))
     return out
 
@@ -669,7 +672,11 @@ def trees(rng, n):
                     mk(c, depth + 1, name + "y")
                 else:
                     kind = rng.random()
-                    if kind < 0.12:
+                    if kind < 0.06:
+                        t = p.add_task(name, parent=parent, effort=G * rng.randint(1, 4), alloc=[grp], alt=[rng.choice(rs)])
+                    elif kind < 0.10:
+                        t = p.add_task(name, parent=parent, effort=G * rng.randint(1, 4), alloc=[rng.choice(rs)], alt=[grp])
+                    elif kind < 0.16:
                         t = p.add_task(name, parent=parent, effort=G * rng.randint(1, 4), alloc=[never])
                     elif kind < 0.2:
                         t = p.add_task(name, parent=parent, milestone=True)
@@ -730,6 +737,10 @@ def teams_alts(rng, n):
         rs = [p.add_res("r%d" % k, hours=rng.choice([None, None, std_hours(480, 960), std_hours(600, 1080)]))
               for k in range(rng.randint(2, 4))]
         ts = []
+        if rng.random() < 0.5:
+            for k, r in enumerate(rs):
+                if rng.random() < 0.8:
+                    p.add_task("w%d" % k, effort=60 * rng.choice([10, 15, 20, 30, 40, 45, 50]) + G * rng.choice([0, 0, 1]), alloc=[r], prio=900)
         for k in range(rng.randint(2, 5)):
             unit = rng.choice([G, G // 2, G // 4, G // 3])
             if unit % 60:
@@ -744,7 +755,8 @@ def teams_alts(rng, n):
                 others = [r for r in rs if r is not alloc[0]]
                 alt = [rng.choice(others)]
             deps = [(rng.choice(ts), False, rng.choice([0, 0, G // 2 if (G // 2) % 60 == 0 else 0]))] if ts and rng.random() < 0.5 else []
-            ts.append(p.add_task("t%d" % k, effort=effort, alloc=alloc, alt=alt, deps=deps, prio=rng.choice([None, 300, 700])))
+            lim = [("d", 3600 * rng.choice([3, 5, 7]), None)] if (len(alloc) > 1 and rng.random() < 0.3) else []
+            ts.append(p.add_task("t%d" % k, effort=effort, alloc=alloc, alt=alt, deps=deps, prio=rng.choice([None, 300, 700]), limits=lim))
         out.append(("team%04d" % i, p))
     return out
 
@@ -1192,5 +1204,80 @@ def container_gate(rng, n):
             p.add_task("notes", parent=grp, effort=G * rng.randint(1, 6), alloc=[rng.choice(rs)], prio=700)
         for k in range(rng.randint(1, 3)):
             p.add_task("chore%d" % k, effort=G * rng.randint(4, 30), alloc=[rng.choice(rs)], prio=rng.choice([300, 400]))
+        if rng.random() < 0.5:
+            # the container itself waits for a task that is declared LAST and ranks low, while its children have
+            # edges of their own (readiness must look at inherited edges too)
+            pre = p.add_task("prereq", effort=G * rng.randint(2, 8), alloc=[rng.choice(rs)], prio=rng.choice([200, 500]))
+            box.deps.append((pre, False, rng.choice([0, G])))
+            leaves_in = [t for t in p.ordered([box]) if not t.kids]
+            outside = [t for t in p.tasks if t.name.startswith("chore")]
+            for b in leaves_in:
+                if outside and rng.random() < 0.6:
+                    b.deps.append((rng.choice(outside), False, 0))      # own edge to a task outside the container
+            for a, b in zip(leaves_in, leaves_in[1:]):
+                if rng.random() < 0.4:
+                    b.deps.append((a, False, 0))
         out.append(("gate%04d" % i, p))
+    return out
+
+
+
+def dst_weekend(rng, n):
+    """C02: resources in DST-observing zones whose hours cover the weekend of a transition (incl. Saturday night and
+    Sunday shifts), projects starting one to three days before the switch, ASAP and ALAP, so that work is booked in
+    the hours right before and after the change of offset."""
+    import zoneinfo
+    from datetime import timezone as _tz
+    zones = ["Australia/Sydney", "America/New_York", "Europe/Berlin", "Pacific/Chatham", "America/Sao_Paulo", "Europe/London",
+             "America/St_Johns", "Australia/Lord_Howe", "Africa/Cairo", "America/Santiago", "Pacific/Auckland", "America/Los_Angeles"]
+
+    def transitions(zn, year):
+        z = zoneinfo.ZoneInfo(zn)
+        out = []
+        t = datetime(year, 1, 1, tzinfo=_tz.utc)
+        last = t.astimezone(z).utcoffset()
+        for _ in range(366 * 24):
+            t += timedelta(hours=1)
+            o = t.astimezone(z).utcoffset()
+            if o != last:
+                out.append(t.replace(tzinfo=None))
+                last = o
+        return out
+    cache = {}
+    out = []
+    for i in range(n):
+        zn = rng.choice(zones)
+        year = rng.choice([2024, 2025, 2026])
+        tr = cache.setdefault((zn, year), transitions(zn, year))
+        if not tr:
+            continue
+        sw = rng.choice(tr)
+        G = rng.choice([3600, 3600, 1800])
+        start = (sw - timedelta(days=rng.randint(1, 3))).replace(hour=rng.choice([0, 6, 12]), minute=0, second=0, microsecond=0)
+        alap = rng.random() < 0.4
+        p = Proj(start=start, G=G, length="+2w", alap=alap)
+        style = rng.choice(["all", "weekend_day", "sat_night", "sun", "nights"])
+        if style == "all":
+            hours = {d: [(rng.choice([360, 540]), rng.choice([1020, 1320]))] for d in range(7)}
+        elif style == "weekend_day":
+            hours = {5: [(540, 1020)], 6: [(540, 780)], 0: [(540, 1020)]}
+        elif style == "sat_night":
+            hours = {5: [(1380, 60)], 6: [(1380, 60)], 4: [(1320, 120)]}
+        elif style == "sun":
+            hours = {6: [(0, 1439)], 5: [(1200, 1439)]}
+        else:
+            hours = {d: [(1320, 360)] for d in range(7)}
+        shift = None
+        if rng.random() < 0.4:
+            shift = p.add_shift("s0", hours)
+        r = p.add_res("r0", hours=None if shift else hours, shift=shift, tz=zn)
+        ts = []
+        for k in range(rng.randint(1, 3)):
+            t = p.add_task("t%d" % k, effort=G * rng.randint(4, 40), alloc=[r], deps=[(ts[-1], False, 0)] if ts and rng.random() < 0.6 else [])
+            ts.append(t)
+        if alap:
+            for t in ts:
+                if not any(d[0] is t for u in ts for d in u.deps):
+                    t.end = (sw + timedelta(days=rng.randint(1, 3))).replace(hour=rng.choice([0, 12]), minute=0, second=0, microsecond=0)
+        out.append(("dst%04d" % i, p))
     return out
